@@ -106,6 +106,20 @@ func (w *World) checkProofsOn(src proofSource, versioned func([]byte) (*ics23.Co
 				return w.viol(obs("versioned.verify"), "GetVersionedProof(%q,%d) err=%v or does not verify", k, v, err)
 			}
 		}
+		// the tree's own helpers (committed versions only: on the working tree they read through the embedded
+		// ImmutableTree, which the property does not speak about): "true iff proof is an ExistenceProof for the key"
+		if it, ok := src.(*iavl.ImmutableTree); ok && via != "working." {
+			if okm, err := it.VerifyMembership(p, k); err != nil || !okm {
+				return w.viol(obs("helper.verifymembership"), "version %d VerifyMembership(own proof of %q)=%v,%v", v, k, okm, err)
+			}
+			if okp, err := it.VerifyProof(p, k); err != nil || !okp {
+				return w.viol(obs("helper.verifyproof"), "version %d VerifyProof(own membership proof of %q)=%v,%v", v, k, okp, err)
+			}
+			if okn, _ := it.VerifyNonMembership(p, k); okn {
+				return w.viol(obs("helper.verifynonmembership"), "version %d VerifyNonMembership(membership proof of present %q) = true", v, k)
+			}
+			w.Cnt["helper_verifications"]++
+		}
 		w.Cnt["membership_proofs"]++
 		if pathVersions(rroot, k) >= 2 {
 			w.Labels["proof_path_multi_version"] = true
@@ -189,6 +203,22 @@ func (w *World) checkProofsOn(src proofSource, versioned func([]byte) (*ics23.Co
 			if err != nil || p3.GetNonexist() == nil || !ics23.VerifyNonMembership(spec, root, p3, k) {
 				return w.viol(obs("versioned.verify"), "GetVersionedProof(absent %q,%d) err=%v or does not verify", k, v, err)
 			}
+		}
+		if it, ok := src.(*iavl.ImmutableTree); ok && via != "working." {
+			if okn, err := it.VerifyNonMembership(p, k); err != nil || !okn {
+				return w.viol(obs("helper.verifynonmembership"), "version %d VerifyNonMembership(own proof of absent %q)=%v,%v", v, k, okn, err)
+			}
+			if okp, err := it.VerifyProof(p, k); err != nil || !okp {
+				return w.viol(obs("helper.verifyproof"), "version %d VerifyProof(own non-membership proof of %q)=%v,%v", v, k, okp, err)
+			}
+			for _, nb := range [][]byte{wantL, wantR} {
+				if nb != nil {
+					if okx, _ := it.VerifyNonMembership(p, nb); okx {
+						return w.viol(obs("helper.verifynonmembership"), "version %d VerifyNonMembership(proof of %q, present key %q) = true", v, k, nb)
+					}
+				}
+			}
+			w.Cnt["helper_verifications"]++
 		}
 		w.Cnt["nonmembership_proofs"]++
 		// binding
